@@ -908,6 +908,41 @@ theorem rootca_answer_interleaved {y : Sys} (h : Reachable y) {p : Nat} {roots :
     fun x => mem_mergeAnchors, mergeAnchors_sorted _ _⟩
   cases l <;> simp [step, hp, finish]
 
+/-- Staleness bound of a ROOTCA answer under interleaving: it reflects the certificate that was cached at the call's
+    FIRST read (`rootca_first_read`), merged with the anchors configured at its second read - not more.  A
+    certificate stored between the two reads is not reflected: here the call read certificate 0 (root `[0]`), then a
+    bundle update emptied the cache and certificate 1 (root `[1]`) was issued and recorded; the answer is `[0,7]`
+    and lacks the CA's current root.  (The callers that matter are told: that root change emits `ROOTCA`.) -/
+theorem rootca_answer_can_be_stale_witness :
+    let i0 : Input := { ca := .ok 3600000000000 0 [], now := 1 }
+    let i1 : Input := { ca := .ok 3600000000000 1 [], now := 2 }
+    let acts1 : List Act := [.spawn 0 (.gen .workload)] ++ List.replicate 12 (.step 0 i0) ++
+      [.spawn 5 (.gen .root), .step 5 {}]                                -- first read: carries `[0]`
+    let acts3 : List Act := acts1 ++ [.spawn 1 (.update [7])] ++ List.replicate 12 (.step 1 {}) ++
+      [.spawn 2 (.gen .workload)] ++ List.replicate 12 (.step 2 i1)
+    let y1 := run (Sys.init ⟨1, 2⟩ ⟨0, 1⟩) acts1
+    let y3 := run (Sys.init ⟨1, 2⟩ ⟨0, 1⟩) acts3
+    let y4 := step y3 5 {}                                              -- second read and answer
+    y1.procs 5 = .gMerge [0] false ∧ Reachable y3 ∧
+    (y3.st.workload.map (·.root)) = some [1] ∧ y3.st.certRoot = [1] ∧
+    y4.procs 5 = .gDone { ok := true, root := some [0, 7] } := by
+  refine ⟨by decide, ⟨_, _, _, rfl⟩, by decide, by decide, by decide⟩
+
+/-- "UpdateConfigTrustBundle will re-sign the workload certificate" has a gap: a certificate OBTAINED before the
+    update can be STORED after its clear, and then stays cached - it is not re-signed (`clears = 1`, no successful CA
+    call since, certificate 0 cached under the new bundle).  Nothing in the property forbids it (the certificate is
+    valid, matching and has its renewal scheduled); recorded as a witness, no theorem claims a re-sign. -/
+theorem lost_resign_witness :
+    let i0 : Input := { ca := .ok 3600000000000 0 [], now := 1 }
+    let y := run (Sys.init ⟨1, 2⟩ ⟨0, 1⟩)
+      ([.spawn 0 (.gen .workload), .step 0 i0, .step 0 i0, .step 0 i0, .step 0 i0,      -- CA answered, not yet stored
+        .spawn 1 (.update [7]), .step 1 {}, .step 1 {}, .step 1 {}, .step 1 {}] ++      -- bundle stored, cache cleared
+       List.replicate 7 (.step 0 i0))                                                   -- now it is stored
+    y.st.cfg = [7] ∧ y.st.clears = 1 ∧ y.st.okSinceClear = 0 ∧ (y.st.workload.map (·.key)) = some 0 ∧
+    y.procs 1 = .uDone true ∧
+    y.procs 0 = .gDone { ok := true, key := some 0, cert := some 0, root := some [0] } := by
+  decide
+
 /-- **root_includes_ca**: whatever path answers a `ROOTCA` request (cache hit, or a CA call), the
     returned bundle contains every root of the CA response behind the workload certificate that is
     cached when the call returns, and every configured trust anchor. -/
